@@ -166,6 +166,14 @@ impl Check for C01 {
                 }
                 Op::SessionRerun => {
                     // the session is evaluated once more without a new text: a one-line text yields its one slot again
+                    if last_slots.is_none() && w.sessions.contains_key(&ev.actor) {
+                        // before any text was set: the call has nothing to evaluate but must return
+                        let (o, _) = w.session_rerun(ev.actor, &ev.clock);
+                        rep.count("session.evaluated_before_any_text");
+                        rep.judged += 1;
+                        if let CallObs::Unwound(p) = &o { rep.violate("O-total", p.key(), ei, format!("evaluating a session that has no text yet panicked: {} at {} in {}", p.msg, p.loc, p.func)); }
+                        continue;
+                    }
                     if last_slots != Some(1) || !w.sessions.contains_key(&ev.actor) { continue; }
                     let (o, clk) = w.session_rerun(ev.actor, &ev.clock);
                     rep.evaluations += 1;
